@@ -55,6 +55,36 @@ Fixpoint sp_walk (stack : list snap) (evs : list mev) (snaps : list snap) : bool
   | _, _ => false
   end.
 
+(* at every commit of a savepoint history: one transaction record per commit carried by all the rows it wrote
+   (C02), and replaying the association versions yields the live links (C10) *)
+Definition one_tx (prev sn : snap) : bool :=
+  let fresh t := negb (memZ (sn_tx prev) t) in
+  let ntx := filter fresh (sn_tx sn) in
+  let newv := filter (fun r => fresh (vtx r)) (sn_vt sn) in
+  let newa := filter (fun r => fresh (a_tx r)) (sn_av sn) in
+  match ntx with
+  | [] => match newv, newa with [], [] => true | _, _ => false end
+  | [T] => forallb (fun r => vtx r =? T) newv && forallb (fun r => a_tx r =? T) newa
+  | _ => false
+  end.
+
+Definition links_replay (sn : snap) : bool :=
+  forallb (fun x => match newest_arow (sn_av sn) x with
+                    | Some r => negb (a_op r =? OP_DEL) | None => false end) (sn_alive sn) &&
+  forallb (fun r => match newest_arow (sn_av sn) (a_tab r, a_key r) with
+                    | Some n => (a_op n =? OP_DEL) || existsb (pair_eqb (a_tab r, a_key r)) (sn_alive sn)
+                    | None => false end) (sn_av sn).
+
+Fixpoint commits_walk (prev : snap) (evs : list mev) (snaps : list snap) : bool :=
+  match evs, snaps with
+  | e :: evs', sn :: snaps' =>
+      match e with
+      | MCore Commit => one_tx prev sn && links_replay sn && commits_walk sn evs' snaps'
+      | _ => commits_walk prev evs' snaps'
+      end
+  | _, _ => true
+  end.
+
 Fixpoint commits_ok (g : cfg) (evs : list mev) (snaps : list snap) : bool :=
   match evs, snaps with
   | e :: evs', sn :: snaps' =>
@@ -100,5 +130,5 @@ Definition C06_prop (c : C06_case) : bool :=
       forallb no_dangling snaps &&
       (* what a rolled-back savepoint leaves behind must not distort the record of the transaction:
          at every commit the recorded entity names are the classes with a version of that transaction *)
-      commits_ok g evs snaps
+      commits_ok g evs snaps && commits_walk snap0 evs snaps
   end.
